@@ -44,8 +44,12 @@ def gen_case(rng, k):
         content = '\n'.join(lines)
         if lines and rng.random() < 0.8: content += '\n'
         inputs.append((f'in{j}.txt', content))
-    return dict(id=f'c{k}', pats=pats, inputs=inputs, color=rng.random() < 0.6, n=rng.random() < 0.5,
-                h=rng.random() < 0.4, files=rng.random() < 0.6, pfile=rng.random() < 0.4,
+    # how colouring is requested: explicit never/always, option omitted (default never), or auto
+    # with TERM=dumb (termcolor: no colours) / TERM=xterm (termcolor: colours; it does not test for a tty)
+    cmode = rng.choice(['never', 'always', 'always', 'always', 'omitted', 'auto-dumb', 'auto-xterm'])
+    return dict(id=f'c{k}', pats=pats, inputs=inputs, color=cmode in ('always', 'auto-xterm'), cmode=cmode,
+                n=rng.random() < 0.5, h=rng.random() < 0.4, files=rng.random() < 0.6,
+                pfile=rng.random() < 0.4, both=rng.random() < 0.25, long_flags=rng.random() < 0.3,
                 blank_pats=rng.random() < 0.3)
 
 def hx(b):
@@ -61,16 +65,29 @@ def run_case(binpath, prof, case, workdir):
         if case['blank_pats'] and len(src) % 2 == 0: src.append('')
         src.append(p)
     text = '\n'.join(src)
-    if case['pfile']:
+    if case.get('both') and len(src) >= 2:
+        # both sources at once: the file's patterns and the -p patterns are all used
+        half = len(src) // 2
+        pf = os.path.join(d, 'pats.txt')
+        open(pf, 'w', encoding='utf-8').write('\n'.join(src[:half]) + '\n')
+        args += ['-f', pf, '-p=' + '\n'.join(src[half:])]
+    elif case['pfile']:
         pf = os.path.join(d, 'pats.txt')
         open(pf, 'w', encoding='utf-8').write(text + '\n')
         args += ['-f', pf]
     else:
         # attached form: a pattern text starting with '-' must not be taken for a flag by clap
         args += ['-p=' + text]
-    if case['n']: args.append('-n')
-    if case['h']: args.append('-h')
-    args.append('--color=always' if case['color'] else '--color=never')
+    lf = case.get('long_flags')
+    if case['n']: args.append('--line-number' if lf else '-n')
+    if case['h']: args.append('--no-filename' if lf else '-h')
+    cmode = case.get('cmode') or ('always' if case['color'] else 'never')
+    env = dict(os.environ)
+    env.pop('NO_COLOR', None)
+    if cmode == 'omitted': pass
+    elif cmode.startswith('auto'):
+        args.append('--color=auto'); env['TERM'] = 'dumb' if cmode == 'auto-dumb' else 'xterm'
+    else: args.append('--color=' + cmode)
     stdin_data = None
     names = []
     if case['files']:
@@ -81,7 +98,7 @@ def run_case(binpath, prof, case, workdir):
     else:
         stdin_data = case['inputs'][0][1].encode('utf-8')
     try:
-        r = subprocess.run(args, input=stdin_data if stdin_data is not None else b'', stdout=subprocess.PIPE, stderr=subprocess.PIPE, timeout=20)
+        r = subprocess.run(args, input=stdin_data if stdin_data is not None else b'', stdout=subprocess.PIPE, stderr=subprocess.PIPE, timeout=20, env=env)
         code, out = r.returncode, r.stdout
     except subprocess.TimeoutExpired:
         code, out = 124, b''
@@ -163,8 +180,9 @@ def run(pid, cfg, tier, seed, replay, problems, obligations, rundir, t0, G):
             'theorems': obligations, 'ties': ties,
             'evaluations': len(cases) * len(bins), 'distinct_nontrivial': sum(1 for v in infos.values() if v),
             'distinct_cases': len(infos),
-            'rule': 'random invocations: 1-5 patterns over a small pool incl. multi-byte characters via -p or -f (with blank pattern lines sprinkled in), stdin or 1-2 files, -n, -h, --color=never|always, each run on the dev and the release binary; distinct = distinct (patterns, inputs, flags); non-trivial = at least two patterns and at least one printed line',
-            'samples': [{k: c[k] for k in ('pats', 'inputs', 'color', 'n', 'h', 'files')} for c in cases[:3]],
+            'rule': 'random invocations: 1-5 patterns over a small pool incl. multi-byte characters via -p or -f (with blank pattern lines sprinkled in), stdin or 1-2 files, -n/--line-number, -h/--no-filename, -f and -p together, --color=never|always|auto (TERM=dumb / TERM=xterm) or omitted, each run on the dev and the release binary; distinct = distinct (patterns, inputs, flags); non-trivial = at least two patterns and at least one printed line',
+            'samples': [{k: c.get(k) for k in ('pats', 'inputs', 'cmode', 'n', 'h', 'files', 'both', 'long_flags')} for c in cases[:3]],
+            'colour_modes': {m: sum(1 for c in cases if c.get('cmode') == m) for m in ('never', 'always', 'omitted', 'auto-dumb', 'auto-xterm')},
             'binaries': sorted(bins.keys()), 'build_log': log,
         },
         'assumptions': ['inputs are LF-terminated UTF-8 without ESC bytes', 'line numbers are 0-based as the code prints them (the property does not fix the base)'],
